@@ -2,6 +2,7 @@ package nodes
 
 import (
 	"fmt"
+	"sort"
 	"strconv"
 	"strings"
 
@@ -225,6 +226,7 @@ func (sn Struct[T, G]) Dependencies() []NodeDependency {
 			})
 		}
 	}
+	sort.Slice(output, func(i, j int) bool { return output[i].Name() < output[j].Name() })
 	return output
 }
 
